@@ -108,7 +108,8 @@ def run(R, env):
     for m in burns:
         R.ob("C03.R3", "SubmitBatch:burn-amount", pending_batch_total(m["amount"]), "burned amount is %s, expected the loaded pending batch's batch_total_liquid_stake" % fmt(m["amount"] or ("none",))[:160], loc=m["loc"], fn=sk)
         R.ob("C03.R3", "SubmitBatch:burn-denom", lst_denom(prog, m["denom"]), "burn denom %s" % fmt(m["denom"] or ("none",))[:100], loc=m["loc"], fn=sk)
-        R.ob("C03.R3", "SubmitBatch:burn-sender-and-holder", m["sender"] is not None and is_contract_addr(m["sender"]) and m["holder"] is not None and is_contract_addr(m["holder"]), "burn sender/holder are not the contract", loc=m["loc"], fn=sk)
+        # the miniwasm message has no burn_from field (the holder is the sender; the back-end refuses any other: C19.R1/R4)
+        R.ob("C03.R3", "SubmitBatch:burn-sender-and-holder", m["sender"] is not None and is_contract_addr(m["sender"]) and (m["holder"] is None or is_contract_addr(m["holder"])), "burn sender/holder are not the contract", loc=m["loc"], fn=sk)
         R.ob("C03.R3", "SubmitBatch:burn-on-every-success-path", must_pass(hs, m["root_bb"]) and shared.response_contains_call_at(hs, m["root_bb"]), "the burn message is not in the Response of every success path", loc=m["loc"], fn=sk)
     for op, alts in shared.state_writes(prog, hs, env):
         good = bool(alts)
